@@ -1,14 +1,170 @@
-(* C10 — property theorems (stage 1). *)
+(* C10 — property theorems only.  Model: coq/C10/Model.v (one agent's stores and its reaction to every input,
+   as the code has it after the two fix: commits; `AsIs` = the code as found).  Every proof is `exact <lemma>`
+   or a closed computation for a refutation witness; Print Assumptions follows each. *)
 From Coq Require Import List NArith Bool.
 Import ListNotations.
-From VF Require Import C10.Model.
+From VF Require Import C10.Model C10.Proofs.
 Local Open Scope N_scope.
 
-Theorem no_repoint_asis_refuted :
-  exists a i d dc, resolve a d = Some dc /\ resolve (fst (step AsIs a i)) d <> Some dc.
+(* NO RE-POINTING (full).  For every agent state, every peer DID d that resolves to a document there, and EVERY
+   sequence of inputs afterwards — messages of any type from anybody, on any thread, carrying any DID, document,
+   key or initialState, interleaved with the agent's own operations —, d still resolves to the same document:
+   same keys, same endpoint.  In particular the peer identifier of an established connection. *)
+Theorem no_repoint : forall (a : agent) (is : list input) (d : did) (dc : doc),
+  resolve a d = Some dc -> resolve (final Fixed a is) d = Some dc.
+Proof. intros a is d dc. exact (final_mono_vdr is a d dc). Qed.
+Print Assumptions no_repoint.
+
+(* the same for the index that attributes inbound messages: a key linked to a DID stays linked to it *)
+Theorem attribution_index_stable : forall (a : agent) (is : list input) (k : key) (d : did),
+  kget (a_keyidx a) k = Some d -> kget (a_keyidx (final Fixed a is)) k = Some d.
+Proof. intros a is k d. exact (final_mono_keys is a k d). Qed.
+Print Assumptions attribution_index_stable.
+
+(* A completed connection record is terminal, in both variants of the code: no input sequence changes its
+   state, thread, own or peer identifier (connection ids are drawn by the agent and are new when drawn). *)
+Theorem completed_is_terminal : forall (v : variant) (is : list input) (a : agent) (c : cid) (r : conn),
+  fresh_ids v a is -> record a c = Some r -> c_state r = SCompleted -> record (final v a is) c = Some r.
+Proof. exact run_completed_stable. Qed.
+Print Assumptions completed_is_terminal.
+
+(* NO CROSS-TALK.  The record of the exchange on thread (n, t) is untouched by any sequence of inputs that
+   belong to other threads — any number of other exchanges at any stage, in any interleaving, plus anything else
+   that is not addressed to (n, t) —, in both variants of the code. *)
+Theorem no_crosstalk : forall (v : variant) (is : list input) (a : agent) (n : ns) (t : th) (c : cid) (r : conn),
+  Forall (foreign n t c) is -> owns a n t c -> record a c = Some r ->
+  owns (final v a is) n t c /\ record (final v a is) c = Some r.
+Proof. exact run_frame. Qed.
+Print Assumptions no_crosstalk.
+
+(* MUTUAL.  Bob (any state B1) handles an invitation of Alice (any state A1) and emits a request; Alice receives
+   that request and emits a response; Bob receives that response and emits the complete; Alice receives it.
+   Between these steps and after them each side processes ARBITRARY other inputs (midA/midB: other threads;
+   postA/postB: other threads — on the exchange's own thread a completed record admits nothing, see
+   completed_is_terminal).  Then both records are completed on the same thread, each one's own identifier is the
+   other's peer identifier, each side resolves the peer identifier to exactly the document the other side
+   created for this connection (keys and endpoint), and the response / complete were posted to the endpoint and
+   keys of those documents. *)
+Theorem mutual : forall p t i k eA cA cB docB myA A1 B1 midA postA midB postB req resp cmpl e1 k1 e2 k2 e3 k3 xa ya xb yb,
+  unused A1 cA -> unused B1 cB ->
+  Forall (foreign Their t cA) midA -> Forall (foreign Their t cA) postA ->
+  Forall (foreign My t cB) midB -> Forall (foreign My t cB) postB ->
+  let B2 := fst (step Fixed B1 (IAcceptInv p i k eA cB t docB)) in
+  snd (step Fixed B1 (IAcceptInv p i k eA cB t docB)) = [OSend e1 k1 req] ->
+  let A2 := fst (step Fixed A1 (IRecv req cA myA)) in
+  snd (step Fixed A1 (IRecv req cA myA)) = [OSend e2 k2 resp] ->
+  let B3 := final Fixed B2 midB in
+  let B4 := fst (step Fixed B3 (IRecv resp xb yb)) in
+  snd (step Fixed B3 (IRecv resp xb yb)) = [OSend e3 k3 cmpl] ->
+  let A3 := final Fixed A2 midA in
+  let A4 := fst (step Fixed A3 (IRecv cmpl xa ya)) in
+  let A' := final Fixed A4 postA in
+  let B' := final Fixed B4 postB in
+  exists rA rB,
+    record A' cA = Some rA /\ record B' cB = Some rB /\
+    c_state rA = SCompleted /\ c_state rB = SCompleted /\ c_th rA = t /\ c_th rB = t /\
+    c_my rA = c_their rB /\ c_their rA = c_my rB /\
+    resolve A' (c_their rA) = Some docB /\ resolve B' (c_their rB) = Some myA /\
+    e2 = d_ep docB /\ k2 = d_keys docB /\ e3 = d_ep myA /\ k3 = d_keys myA.
 Proof.
-  exists (Agent [(7, Doc 7 [8] 9 10)] [] [] [] [(2, 3)]),
-         (IRecv (MRequest DX 29 2 7 (Some (Doc 7 [20] 21 30))) 31 (Doc 40 [41] 11 42)), 7, (Doc 7 [8] 9 10).
-  split; [reflexivity | vm_compute; discriminate].
+  intros p t i k eA cA cB docB myA A1 B1 midA postA midB postB req resp cmpl e1 k1 e2 k2 e3 k3 xa ya xb yb
+         UA UB FmA FpA FmB FpB B2 H1 A2 H2 B3 B4 H3 A3 A4 A' B'.
+  destruct (mutual_run p t i k eA cA cB docB myA A1 B1 midA postA midB postB req resp cmpl e1 k1 e2 k2 e3 k3 xa ya xb yb
+              UA UB FmA FpA FmB FpB H1 H2 H3) as ((rk & RA) & RB & VA & VB & E2 & K2 & E3 & K3 & _).
+  exists (Conn Their t SCompleted (d_id myA) (d_id docB) rk), (Conn My t SCompleted (d_id docB) (d_id myA) k).
+  cbn [c_state c_th c_my c_their]. repeat split; assumption.
 Qed.
+Print Assumptions mutual.
+
+(* ATTRIBUTED.  After such an exchange, a message packed by Bob with a key of his document for a key of Alice's
+   document is handed to Alice's handler with (my, their) = the two identifiers of that same connection record,
+   and the other way round — whatever else (postA/postB: ANY foreign-thread inputs, e.g. everything a third
+   party sends afterwards) the two agents processed meanwhile.  Guard on the time of the exchange itself: when the
+   complete arrives, nobody else has yet claimed Bob's keys at Alice (the other exchanges running at the same
+   time use keys of their own). *)
+Theorem attributed : forall p t i k eA cA cB docB myA A1 B1 midA postA midB postB req resp cmpl e1 k1 e2 k2 e3 k3 xa ya xb yb,
+  unused A1 cA -> unused B1 cB ->
+  Forall (foreign Their t cA) midA -> Forall (foreign Their t cA) postA ->
+  Forall (foreign My t cB) midB -> Forall (foreign My t cB) postB ->
+  let B2 := fst (step Fixed B1 (IAcceptInv p i k eA cB t docB)) in
+  snd (step Fixed B1 (IAcceptInv p i k eA cB t docB)) = [OSend e1 k1 req] ->
+  let A2 := fst (step Fixed A1 (IRecv req cA myA)) in
+  snd (step Fixed A1 (IRecv req cA myA)) = [OSend e2 k2 resp] ->
+  let B3 := final Fixed B2 midB in
+  let B4 := fst (step Fixed B3 (IRecv resp xb yb)) in
+  snd (step Fixed B3 (IRecv resp xb yb)) = [OSend e3 k3 cmpl] ->
+  let A3 := final Fixed A2 midA in
+  let A4 := fst (step Fixed A3 (IRecv cmpl xa ya)) in
+  let A' := final Fixed A4 postA in
+  let B' := final Fixed B4 postB in
+  (forall fk, In fk (d_keys docB) -> kget (a_keyidx A3) fk = None \/ kget (a_keyidx A3) fk = Some (d_id docB)) ->
+  forall kb ka x y, In kb (d_keys docB) -> In ka (d_keys myA) ->
+    snd (step Fixed A' (IRecv (MPing kb ka) x y)) = [OHandled (d_id myA) (d_id docB)] /\
+    snd (step Fixed B' (IRecv (MPing ka kb) x y)) = [OHandled (d_id docB) (d_id myA)].
+Proof.
+  intros p t i k eA cA cB docB myA A1 B1 midA postA midB postB req resp cmpl e1 k1 e2 k2 e3 k3 xa ya xb yb
+         UA UB FmA FpA FmB FpB B2 H1 A2 H2 B3 B4 H3 A3 A4 A' B' FRESH kb ka x y Hb Ha.
+  destruct (mutual_run p t i k eA cA cB docB myA A1 B1 midA postA midB postB req resp cmpl e1 k1 e2 k2 e3 k3 xa ya xb yb
+              UA UB FmA FpA FmB FpB H1 H2 H3) as (_ & _ & _ & _ & _ & _ & _ & _ & KA1 & KA2 & KB1 & KB2).
+  subst A' B' A4 B4 A3 B3 A2 B2.
+  split; rewrite ping_step; unfold dispatch.
+  - rewrite (KA1 _ Ha), (KA2 FRESH _ Hb). reflexivity.
+  - rewrite (KB1 _ Hb), (KB2 _ Ha). reflexivity.
+Qed.
+Print Assumptions attributed.
+
+(* ---------- the code as found ---------- *)
+(* alice: invitation 2 (key 3); bob's request (thread 6, DID 7, keys [8], endpoint 9); complete; then mallory's
+   request on a fresh thread 29 naming DID 7 with her own key 20 and endpoint 21 (corpus/C10/repoint-request.json) *)
+Definition alice_history : list input :=
+  [ICreateInv 2 3; IRecv (MRequest DX 6 2 7 (Some (Doc 7 [8] 9 10))) 17 (Doc 14 [15] 11 16);
+   IRecv (MComplete DX 6) 0 (Doc 0 [] 0 0)].
+Definition mallory_repoint : list input :=
+  [ICreateInv 27 28; IRecv (MRequest DX 29 27 7 (Some (Doc 7 [20] 21 30))) 31 (Doc 32 [33] 11 34)].
+(* mallory's own exchange (thread 40) with a new DID 41 whose document lists bob's key 8 next to her key 20 *)
+Definition mallory_keysteal : list input :=
+  [ICreateInv 27 28; IRecv (MRequest DX 40 27 41 (Some (Doc 41 [20; 8] 21 42))) 43 (Doc 44 [45] 11 46);
+   IRecv (MComplete DX 40) 0 (Doc 0 [] 0 0)].
+
+Theorem no_repoint_asis_refuted :
+  let a := final AsIs agent0 alice_history in
+  completed_at a 17 = true /\ resolve a 7 = Some (Doc 7 [8] 9 10) /\
+  resolve (final AsIs a mallory_repoint) 7 = Some (Doc 7 [20] 21 30) /\
+  resolve (final Fixed (final Fixed agent0 alice_history) mallory_repoint) 7 = Some (Doc 7 [8] 9 10).
+Proof. vm_compute. repeat split. Qed.
 Print Assumptions no_repoint_asis_refuted.
+
+Theorem initial_state_repoint_asis_refuted :
+  let a := final AsIs agent0 alice_history in
+  resolve (final AsIs a [IRecv (MInit (Doc 7 [20] 21 30) 20 28) 0 (Doc 0 [] 0 0)]) 7 = Some (Doc 7 [20] 21 30).
+Proof. vm_compute. reflexivity. Qed.
+Print Assumptions initial_state_repoint_asis_refuted.
+
+Theorem attributed_asis_refuted :
+  let a := final AsIs agent0 alice_history in
+  snd (step AsIs a (IRecv (MPing 8 15) 0 (Doc 0 [] 0 0))) = [OHandled 14 7] /\
+  snd (step AsIs (final AsIs a mallory_keysteal) (IRecv (MPing 8 15) 0 (Doc 0 [] 0 0))) = [OHandled 14 41] /\
+  snd (step Fixed (final Fixed (final Fixed agent0 alice_history) mallory_keysteal) (IRecv (MPing 8 15) 0 (Doc 0 [] 0 0)))
+    = [OHandled 14 7].
+Proof. vm_compute. repeat split. Qed.
+Print Assumptions attributed_asis_refuted.
+
+(* ---------- non-vacuity: the hypotheses of `mutual`/`attributed` are met by a concrete run with another
+   exchange interleaved on each side and a hostile request afterwards ---------- *)
+Example mutual_nonvacuous :
+  let docB := Doc 7 [8] 9 10 in let myA := Doc 14 [15] 11 16 in
+  let A1 := final Fixed agent0 [ICreateInv 2 3; ICreateInv 50 51] in
+  let B1 := agent0 in
+  let other := IRecv (MRequest DX 60 50 61 (Some (Doc 61 [62] 63 64))) 65 (Doc 66 [67] 11 68) in
+  let B2 := fst (step Fixed B1 (IAcceptInv DX 2 3 11 12 6 docB)) in
+  let A2 := fst (step Fixed A1 (IRecv (MRequest DX 6 2 7 (Some docB)) 17 myA)) in
+  let A3 := final Fixed A2 [other] in
+  let A4 := fst (step Fixed A3 (IRecv (MComplete DX 6) 0 (Doc 0 [] 0 0))) in
+  let A' := final Fixed A4 mallory_repoint in
+  snd (step Fixed B1 (IAcceptInv DX 2 3 11 12 6 docB)) = [OSend 11 [3] (MRequest DX 6 2 7 (Some docB))] /\
+  snd (step Fixed A1 (IRecv (MRequest DX 6 2 7 (Some docB)) 17 myA)) = [OSend 9 [8] (MResponse DX 6 14 (Some myA) 3)] /\
+  snd (step Fixed B2 (IRecv (MResponse DX 6 14 (Some myA) 3) 0 (Doc 0 [] 0 0))) = [OSend 11 [15] (MComplete DX 6)] /\
+  record A' 17 = Some (Conn Their 6 SCompleted 14 7 0) /\ resolve A' 7 = Some docB /\
+  record A' 31 = Some (Conn Their 29 SAbandoned 0 7 0) /\ completed_at A3 65 = false /\
+  snd (step Fixed A' (IRecv (MPing 8 15) 0 (Doc 0 [] 0 0))) = [OHandled 14 7].
+Proof. vm_compute. repeat split. Qed.
